@@ -91,26 +91,62 @@ def callee_return_term(c, name):
 
 
 def ceil_rule(c, res, probes):
-    name = BBMP + 'time_on_air_us::div_ceil'
-    if not c.has(name):
-        res.ok('CEIL-IDIOM', 'no local div_ceil helper (rule not applicable)')
-        return
-    bf, rets = callee_return_term(c, name)
-    idiom = len(rets) == 1 and rets[0] == ('Add', ('Div', ('Sub', ('param', 1), ('const', 1)), ('param', 2)), ('const', 1))
-    if not idiom:
-        res.ok('CEIL-IDIOM', 'div_ceil is not the bare (n-1)/d+1 idiom: %s' % [term_str(r) for r in rets if r])
-        # whatever it is, its own arithmetic obligations are covered by (a)
-        return
-    if not probes:
-        raise CheckError('div_ceil call site not probed')
+    """every occurrence of the idiom (x - 1) / d + 1 in the airtime code must be reached only with x >= 1: by a dominating
+    branch condition on x, or (when x is a parameter of a local helper and no branch guards it) by the interval of the
+    argument at every call site"""
+    n_idiom = 0
+    for b in c.prog.bodies.values():
+        if b.crate != 'lora_modulation' or 'time_on_air_us' not in b.path:
+            continue
+        bf = c.pf.bf(b)
+        for blk in b.blocks:
+            if blk.cleanup or blk.idx not in bf.cfg.reach:
+                continue
+            for si, s_ in enumerate(blk.stmts):
+                if s_.k != 'assign' or not s_.lhs.is_local():
+                    continue
+                if s_.rv.k == 'use':
+                    t = term_of_operand(bf, s_.rv.ops[0])
+                elif s_.rv.k == 'bin':
+                    t = (s_.rv.d['op'], term_of_operand(bf, s_.rv.ops[0]), term_of_operand(bf, s_.rv.ops[1]))
+                else:
+                    t = None
+                # only the outermost occurrence (skip plain copies of an already inspected temporary)
+                if s_.rv.k == 'use' and s_.rv.ops[0].place is not None and s_.rv.ops[0].place.is_local() and not s_.rv.ops[0].place.proj:
+                    t = None
+                if not (t and t[0] == 'Add' and t[2] == ('const', 1) and t[1][0] == 'Div' and t[1][1][0] == 'Sub' and t[1][1][2] == ('const', 1)):
+                    continue
+                n_idiom += 1
+                x = t[1][1][1]
+                conds = rules.path_conditions(bf, blk.idx)
+                guarded = False
+                for cnd in conds:
+                    tt = cnd[0]
+                    if tt[0] == 'Gt' and tt[1] == x and tt[2] == ('const', 0) and cond_true(cnd):
+                        guarded = True
+                    if tt[0] == 'Ge' and tt[1] == x and tt[2] == ('const', 1) and cond_true(cnd):
+                        guarded = True
+                    if tt[0] == 'Le' and tt[1] == x and tt[2] == ('const', 0) and cond_false(cnd):
+                        guarded = True
+                    if tt[0] == 'Lt' and tt[1] == x and tt[2] == ('const', 1) and cond_false(cnd):
+                        guarded = True
+                site = short_site(bf, blk.idx, si)
+                if guarded:
+                    res.ok('CEIL-IDIOM(n >= 1)', '(n-1)/d+1 in %s is reached only with n >= 1 (branch condition)' % b.path.split('::')[-1], site)
+                    continue
+                lo = None
+                if x[0] == 'param' and b.path.endswith('div_ceil'):
+                    los = [p['args'][x[1] - 1][0] for p in probes if p['args'][x[1] - 1] is not None]
+                    lo = min(los) if los and len(los) == len(probes) else None
+                res.require(lo is not None and lo >= 1, 'C16:time_on_air_us:div_ceil-nonpositive-numerator',
+                            'the ceiling idiom (n-1)/d+1 can be reached with n <= 0 (n >= %s here; conditions: %s): under truncating division it is 1 + (n-1)/d, '
+                            'not ceil(n/d), e.g. one extra coding block when the numerator is exactly zero (SF11, explicit header, empty payload)'
+                            % (lo, [(term_str(x_[0]), x_[1]) for x_ in conds]), site, 'CEIL-IDIOM(n >= 1)', instance='ceil idiom numerator >= 1 at %s' % site)
+    if n_idiom == 0:
+        res.ok('CEIL-IDIOM(n >= 1)', 'no (n-1)/d+1 idiom in the airtime code (rule not applicable)')
     for p in probes:
-        lo = p['args'][0][0] if p['args'][0] else None
         dlo = p['args'][1][0] if p['args'][1] else None
-        res.require(lo is not None and lo >= 1, 'C16:time_on_air_us:div_ceil-nonpositive-numerator',
-                    'the ceiling idiom (n-1)/d+1 is applied to a numerator in %s: for n <= 0 truncating division makes it 1 + (n-1)/d, not ceil(n/d) '
-                    '(e.g. SF12/125 kHz, explicit header, empty payload: one extra coding block)' % (p['args'][0],), p['site'], 'CEIL-IDIOM(n >= 1)',
-                    instance='div_ceil numerator >= 1 at %s' % p['site'])
-        res.require(dlo is not None and dlo >= 1, 'C16:time_on_air_us:div_ceil-nonpositive-denominator', 'ceiling idiom with denominator %s' % (p['args'][1],), p['site'],
+        res.require(dlo is not None and dlo >= 1, 'C16:time_on_air_us:div_ceil-nonpositive-denominator', 'ceiling division with denominator %s' % (p['args'][1],), p['site'],
                     'CEIL-IDIOM(d >= 1)', instance='div_ceil denominator >= 1')
 
 
